@@ -369,3 +369,59 @@ func profileEngine(args []string) error {
 	}
 	return nil
 }
+
+// Engine "fwdtext" (C17): config.Forwarders.Set / Resolver.String at the level of text against
+// Model/FwdText.v.  fwt <id> <value> => <err> <Domain> <String()> <Domain after re-Set of String()> <String() after re-Set> <len>
+func init() { register("fwdtext", fwdTextEngine) }
+
+func fwdTextEngine(args []string) error {
+	c := parseCommon("fwdtext", args)
+	r := newRng(c.seed)
+	doms := []string{"corp", "Corp.", "lan", "example.com", "x.lan.", "", ".", "a b", "corp..", "_svc.corp", "xn--p1ai"}
+	addrs := []string{"10.0.0.1", "10.0.0.2:5353", "https://doh.example/dns#1.2.3.4", "10.0.0.1,10.0.0.3", "https://doh.example/q?a=b", "https://doh.example/dns-query?x=1#1.1.1.1,2.2.2.2", "::1", "[::1]:53"}
+	ws := []string{"", "", "", " ", "\t", "  ", " \t ", "\n", "\r", "\v", "\f"}
+	pad := func(s string) string { return ws[r.intn(len(ws))] + s + ws[r.intn(len(ws))] }
+	for i := 0; i < c.n; i++ {
+		var v string
+		a := addrs[r.intn(len(addrs))]
+		d := doms[r.intn(len(doms))]
+		if r.coin(30) && len(cfgDomTokens) > 0 {
+			d = strings.Repeat(cfgDomTokens[r.intn(len(cfgDomTokens))], r.rng(1, 3)) + d
+		}
+		switch r.intn(10) {
+		case 0:
+			v = a
+		case 1:
+			v = pad(a)
+		case 2:
+			v = d + "=" + a
+		case 3, 4, 5:
+			v = pad(d) + "=" + pad(a)
+		case 6:
+			v = "=" + pad(a)
+		case 7:
+			v = pad(d) + "=" + pad(d) + "=" + a
+		case 8:
+			v = pad(d) + pad("=") + a + "="
+		default:
+			v = pad(pad(d) + "=" + pad(a))
+		}
+		var f config.Forwarders
+		err := f.Set(v)
+		if err != nil {
+			emit("fwt", itoa(i), sx(v), "=>", "1", "-", "-", "-", "-", "0")
+			continue
+		}
+		s1 := f[0].String()
+		var g config.Forwarders
+		err2 := g.Set(s1)
+		d2, s2 := "ERR", "ERR"
+		if err2 == nil {
+			d2, s2 = sx(g[0].Domain), sx(g[0].String())
+		}
+		// the list after setting the printed form on top of the original: one element (replacement by Domain)
+		_ = f.Set(s1)
+		emit("fwt", itoa(i), sx(v), "=>", "0", sx(f[0].Domain), sx(s1), d2, s2, itoa(len(f)))
+	}
+	return nil
+}
